@@ -2,6 +2,7 @@
 //! `vth <property> [--tier quick|thorough] [--seed N] --out DIR [--replay FILE] [extra…]`
 //! Drives the real versatiles-rs crates; writes cases.txt / impl.txt / stats.json into DIR.
 mod common;
+mod c05;
 mod indep_mvt;
 mod c04;
 mod c07;
@@ -40,6 +41,7 @@ fn main() {
 		"C18" => c18::run(&args),
 		"C07" => c07::run(&args),
 		"C13" => c13::run(&args),
+		"C05" => c05::run(&args),
 		"C20" => c20::run(&args),
 		"C06" => c06::run(&args),
 		_ => {
